@@ -286,6 +286,49 @@ def externInitAfterStaticRegion (ds : List Decl) : Bool :=
     let D := objDecls ds x
     objInternal D && D.any (fun d => d.isExtern && d.init.isSome))
 
+/-! ### side conditions of `C15_symbols_partial`: what `valid` leaves open
+
+`valid` is deliberately short; three things a C compiler checks are not in it, and the symbol-table theorem
+needs them.  They are stated here as decidable predicates of their own so that `valid` (and with it the full
+statement and the kernel-checked findings) stays what it was. -/
+
+/-- the identifiers of a function body are declared at the point of use: a block-scope `extern` declaration
+    counts from its position on (`refsDeclared` lets it count for the whole body) -/
+def bodyOrdered (fs xs : List Name) : List BodyItem → Bool
+  | [] => true
+  | .ref (.fn g) :: r => fs.contains g && bodyOrdered fs xs r
+  | .ref (.obj x) :: r => xs.contains x && bodyOrdered fs xs r
+  | .staticLocal _ _ (some init) :: r =>
+    (initFnRefs init).all (fun g => fs.contains g) && (initObjRefs init).all (fun y => xs.contains y) &&
+      bodyOrdered fs xs r
+  | .staticLocal _ _ none :: r => bodyOrdered fs xs r
+  | .str _ :: r => bodyOrdered fs xs r
+  | .externObj x _ _ :: r => bodyOrdered fs (x :: xs) r
+
+/-- `refsDeclared` with `bodyOrdered` for the bodies -/
+def refsOrdered : List Decl → List Name → List Name → Bool
+  | [], _, _ => true
+  | .func f _ _ _ _ body :: ds, fs, xs =>
+    (match body with | none => true | some b => bodyOrdered (f :: fs) xs b) && refsOrdered ds (f :: fs) xs
+  | .obj x _ _ _ _ init :: ds, fs, xs =>
+    (match init with
+      | none => true
+      | some items => (initFnRefs items).all (fun g => fs.contains g) && (initObjRefs items).all (fun y => (x :: xs).contains y)) &&
+    refsOrdered ds fs (x :: xs)
+
+/-- what `objValid` does not say about the types of the declarations of one object: alignments are positive,
+    and the declarations that leave the array length open agree on the element size (compatible types,
+    C11 6.2.7p1 / 6.7.6.2p6) -/
+def tysAgree (D : List ObjDecl) : Bool :=
+  D.all (fun d => decide (1 ≤ d.ty.align)) &&
+  (match D.find? (fun d => d.ty.unknownLen) with
+    | some u => D.all (fun d => !d.ty.unknownLen || d.ty.size == u.ty.size)
+    | none => true)
+
+/-- the side condition of `C15_symbols_partial` -/
+def symbolsSide (ds : List Decl) : Bool :=
+  refsOrdered ds [] [] && (objNames ds).all (fun x => tysAgree (objDecls ds x))
+
 /-! ### which address forms are valid for which entity (x86-64 psABI 3.5 code models, ELF TLS ABI)
 
 Outputs considered: non-PIE executable (dynamic or `-static`) from non-PIC or PIC objects; shared library
